@@ -1,5 +1,5 @@
 HOOK_COMMITS = ["d8a0f57"]
-FIX_COMMITS = ["10a3687", "edbed29", "6730abc", "202cc98", "aa67b39", "628eb0d", "fc50b63", "67f5fe3", "2135ff7", "ab3e87d", "b409d3c"]
+FIX_COMMITS = ["10a3687", "edbed29", "6730abc", "202cc98", "aa67b39", "628eb0d", "fc50b63", "67f5fe3", "2135ff7", "ab3e87d", "b409d3c", "fa38961"]
 SPEC_NOTE = ("Trusted: Lean kernel (axioms propext, Classical.choice, Quot.sound only); the hand-written parser model (constants regenerated from the source), tied to spec_util.rs by the K-spec correspondence "
              "on generated YAML text; serde_yaml's text parser is outside the model.")
 OPS_NOTE = ("Trusted: Lean kernel (axioms propext, Classical.choice, Quot.sound only); the acceptors are hand-written specifications of the operators' possible results, and the real operators are checked to "
